@@ -152,7 +152,7 @@ func modeC18() {
 	}
 	// start-up errors in the upstream / domain-set part of the configuration with upstreams that own a socket
 	// from the moment they are built (quic, h3): everything built so far is released
-	for _, kind := range []string{"dupup-quic", "dupup-h3", "unkfwd-quic", "badset-quic"} {
+	for _, kind := range []string{"dupup-quic", "dupup-h3", "unkfwd-quic", "badset-quic", "badtag-quic", "badtag-h3"} {
 		time.Sleep(100 * time.Millisecond)
 		base := sockFDs()
 		scheme := "quic"
@@ -167,6 +167,9 @@ func modeC18() {
 			cfg.Upstreams = append(cfg.Upstreams, router.UpstreamConfig{Tag: "main", Addr: scheme + "://127.0.0.1:5354"})
 		case strings.HasPrefix(kind, "unkfwd"):
 			cfg.Rules = append(cfg.Rules, router.RuleConfig{Forward: "nowhere"})
+		case strings.HasPrefix(kind, "badtag"):
+			// a tag that is no valid UTF-8: the upstream is built (and owns its socket), then its metrics cannot be registered
+			cfg.Upstreams[1].Tag = "back\xffup"
 		case strings.HasPrefix(kind, "badset"):
 			cfg.DomainSets = []router.DomainSetConfig{{Tag: "s", Files: []string{"/nonexistent/set.txt"}}}
 		}
